@@ -56,6 +56,8 @@ package pod_info
 //@   requires pi != nil && pi.Pod != nil && pi.ResReq != nil
 //@   requires !pi.IsLegacyMIGtask && pi.VectorMap != nil && pi.ResourceRequestType == RequestTypeRegular   // as set by the constructor, its only caller
 //@   requires bindRequest != nil ==> bindRequest.BindRequest != nil
+//@   assume resources.piVal("") == 0 && resources.pfVal("") == 0.0
+//@   note strconv: ParseInt("")/ParseFloat("") return value 0 with ErrSyntax (documented); an absent annotation is read as ""
 //@   modifies pi.GPUGroups, pi.ResourceReceivedType, pi.ResReq.GpuResourceRequirement, pi.ResourceRequestType, pi.ResReqVector, pi.IsLegacyMIGtask
 // C19 (top level, agreement): "Every GPU request that admission accepts ... denotes a finite positive
 // quantity which the scheduler interprets as exactly that request".  (Legacy MIG annotations replace the
